@@ -135,14 +135,14 @@ SP_RULE = ('random graphs of all 8 kinds (directed x multi-edge x self-loops) wi
 
 PROPS.update({
     'C04': dict(
-        extra_modules=['GraphrsModel.Props.C04Model'],
+        extra_modules=['GraphrsModel.Props.C04Model', 'GraphrsModel.Props.C08Api'],
         gens=[('sp', 'small', 2500, 40000, 8), ('sp', 'parallel', 25, 300, 40)],
         spec_fields=[r'ok\.ss', r'ok\.ms', r'ok\.ap'],
         model_fields=[r'build', r'ss', r'ms', r'ap'],
         nontrivial=sp_nontrivial, hist=sp_hist, rule=SP_RULE, assumptions=COMMON_ASSUME,
     ),
     'C08': dict(
-        extra_modules=['GraphrsModel.Props.C04Model'],
+        extra_modules=['GraphrsModel.Props.C04Model', 'GraphrsModel.Props.C08Api'],
         gens=[('sp', 'small', 2500, 40000, 7), ('sp', 'parallel', 15, 200, 30)],
         spec_fields=[r'ok\.ss', r'ok\.ms', r'ok\.ap', r'ok\.inv'],
         model_fields=[r'build', r'ss', r'ms', r'ap', r'inv'],
